@@ -1722,16 +1722,66 @@ func (in *Interp) intBinop(op token.Token, xt types.Type, x, y *Term, rt types.T
 				}
 			}
 		}
-		if op == token.OR && oky && x.lo != nil && x.lo.Sign() >= 0 && x.hi != nil {
-			// x | c where c's bits are all above x's range or disjoint low bits... only handle c with no overlap possible
-			if x.hi.BitLen() <= int(trailingZeros(yv)) {
-				return Add(x, y)
+		if op == token.OR && !okx && !oky {
+			// (a << k) | b with 0 <= b < 2^k (path-refined): the bit ranges are disjoint
+			for _, pr := range [][2]*Term{{x, y}, {y, x}} {
+				hiT, loT := pr[0], pr[1]
+				tz := termTrailingZeros(hiT)
+				lo, hi := in.ival(loT)
+				if tz > 0 && lo != nil && lo.Sign() >= 0 && hi != nil && uint(hi.BitLen()) <= tz {
+					return Wrap(Add(hiT, loT), bits, signed)
+				}
+			}
+		}
+		if op == token.OR && (okx || oky) {
+			// v | c where every set bit of c lies above v's range (path-refined): v + c
+			v, c, cv := x, y, yv
+			if okx {
+				v, c, cv = y, x, xv
+			}
+			if cv.Sign() == 0 {
+				return v
+			}
+			lo, hi := in.ival(v)
+			if cv.Sign() > 0 && lo != nil && lo.Sign() >= 0 && hi != nil && hi.BitLen() <= int(trailingZeros(cv)) {
+				return Add(v, c)
 			}
 		}
 		in.unsupported("bit operation " + op.String() + " on symbolic operands")
 	}
 	in.unsupported("int binop " + op.String())
 	return nil
+}
+
+// termTrailingZeros: a number of low bits that are certainly zero in t.
+func termTrailingZeros(t *Term) uint {
+	switch t.op {
+	case OConst:
+		if t.iv != nil {
+			if t.iv.Sign() == 0 {
+				return 64
+			}
+			return t.iv.TrailingZeroBits()
+		}
+	case OMul:
+		var n uint
+		for _, a := range t.args {
+			n += termTrailingZeros(a)
+		}
+		if n > 64 {
+			n = 64
+		}
+		return n
+	case OAdd, OSub:
+		n := uint(64)
+		for _, a := range t.args {
+			if k := termTrailingZeros(a); k < n {
+				n = k
+			}
+		}
+		return n
+	}
+	return 0
 }
 
 func trailingZeros(v *big.Int) uint {
